@@ -41,6 +41,15 @@ type File struct {
 }
 
 func Archive(files []File) []byte
+
+// DirEntry is one entry of a feed directory: Kind 0 readable file holding Msg, 1 unreadable (a sub-directory), 2 corrupt bytes, 3 empty file.
+type DirEntry struct {
+	Name string
+	Kind int
+	Msg  *gtfsrt.FeedMessage
+}
+
+func Dir(entries []DirEntry) string
 func Marshal(m *gtfsrt.FeedMessage) []byte
 func BadBytes() []byte
 func And(xs ...bool) bool
